@@ -176,14 +176,39 @@ impl Storable for AnnotationDataSet {
     fn merge(&mut self, other: Self) -> Result<(), StamError> {
         let merge = self.config.merge;
         self.config.merge = true; //enable merge mode for underlying keys and data
+        // keys are matched by id: a key of the other set may have another handle in this set
+        let mut keymap: Vec<Option<DataKeyHandle>> = Vec::with_capacity(other.keys.len());
         for key in other.keys {
-            if let Some(key) = key {
-                self.insert(key.unbind())?;
-            }
+            keymap.push(match key {
+                Some(key) => Some(self.insert(key.unbind())?),
+                None => None,
+            });
         }
         for data in other.data {
-            if let Some(data) = data {
+            if let Some(mut data) = data {
+                data.key = keymap
+                    .get(data.key.as_usize())
+                    .copied()
+                    .flatten()
+                    .ok_or(StamError::HandleError(
+                        "AnnotationDataSet::merge: data refers to a key that is not in its set",
+                    ))?;
+                // an existing item that is redefined with another key moves in the key index too
+                let existing = data
+                    .id()
+                    .and_then(|id| self.annotationdata(id))
+                    .and_then(|existing| existing.handle().map(|handle| (handle, existing.key)));
+                let newkey = data.key;
                 self.insert(data.unbind())?;
+                if let Some((handle, oldkey)) = existing {
+                    if oldkey != newkey {
+                        self.key_data_map.remove(oldkey, handle);
+                        self.key_data_map.insert(newkey, handle);
+                        if let Some(handles) = self.key_data_map.data.get_mut(newkey.as_usize()) {
+                            handles.sort_unstable();
+                        }
+                    }
+                }
             }
         }
         self.config.merge = merge; //reset merge mode
